@@ -55,6 +55,9 @@ var c02Kinds = []linkKind{
 	{"cert-repeating-one-of-two-required-values-J", "", "", false},
 	{"honest-cert-K(second-constraint)", "K", "cert", false},
 	{"tampered-copy-of-A-named-by-9-characters-of-A's-id", "", "", false},
+	// a copy of A's honest link whose signature entry and file name spell A's key id in upper case:
+	// whatever one thinks of the spelling, it is not a second functionary
+	{"copy-of-A-under-upper-case-spelling-of-A's-id", "", "", false},
 	{"garbage-bytes", "", "", false},
 	{"truncated-json", "", "", false},
 	// observed: the library accepts it (the link's name is never compared with the
@@ -165,6 +168,20 @@ func newC02Env(c *core.Ctx, dsse bool) (*c02Env, error) {
 		put("honest-cert-K(second-constraint)", name(e.fn["K"]), kBytes)
 		// a file named by nine characters of A's key id holds the tampered copy of A's link
 		put("tampered-copy-of-A-named-by-9-characters-of-A's-id", "s."+e.fn["A"].Pub.KeyID[:9]+".link", e.files["tampered-after-signing-A"])
+	}
+	{
+		doc, _ := gen.ParseJSON(aBytes)
+		d := doc.(map[string]any)
+		up := strings.ToUpper(e.fn["A"].Pub.KeyID)
+		sg := d["signatures"].([]any)[0].(map[string]any)
+		entries := []any{map[string]any{"keyid": up, "sig": sg["sig"]}}
+		if dsse {
+			// both spellings listed (an envelope verifier looks the signature up by the exact id)
+			entries = append(entries, sg)
+		}
+		d["signatures"] = entries
+		b, _ := json.Marshal(d)
+		put("copy-of-A-under-upper-case-spelling-of-A's-id", "s."+up[:8]+".link", b)
 	}
 	put("copy-of-A-under-another-name", "s.deadbeef.link", aBytes)
 	forged := func(src []byte, withCert string) []byte {
@@ -302,11 +319,22 @@ func runC02(c *core.Ctx) {
 	rundir := filepath.Join(c.WorkDir, "c02-rundir")
 	os.MkdirAll(rundir, 0755)
 	os.WriteFile(filepath.Join(rundir, "keep"), []byte("x"), 0644)
+	// the verifying host's own trust store (simulated with SSL_CERT_FILE before crypto/x509 loads the
+	// system roots) trusts the CAs of the functionaries' certificates: that must not make any
+	// certificate count for a layout that does not name the CA itself
+	hostStore := filepath.Join(c.WorkDir, "host-trust-store.pem")
+	os.WriteFile(hostStore, nil, 0644)
+	os.Setenv("SSL_CERT_FILE", hostStore)
+	os.Setenv("SSL_CERT_DIR", filepath.Join(c.WorkDir, "no-such-dir"))
 	for _, dsse := range []bool{false, true} {
 		env, err := newC02Env(c, dsse)
 		if err != nil {
 			c.Inconclusive("harness: cannot build functionaries: " + err.Error())
 			continue
+		}
+		if f, ferr := os.OpenFile(hostStore, os.O_APPEND|os.O_WRONLY, 0644); ferr == nil {
+			f.WriteString(env.root.PEM)
+			f.Close()
 		}
 		tLink, _ := gen.SignedMeta(c02Link("t"), dsse, env.fn["F"].SigningKey())
 		uLink, _ := gen.SignedMeta(c02Link("u"), dsse, env.fn["G"].SigningKey())
@@ -664,7 +692,7 @@ func init() {
 	core.Register(&core.Property{
 		ID:    "C02",
 		Level: "exploration",
-		Rule: "layout with steps t (earlier), s (under test), u (later); step s with threshold 1..3 and authorization by {2 listed keys, 1 certificate constraint + layout root/intermediate CA, both}; link-file populations for s = all multisets of size<=2 (quick) / <=3 (thorough, + 2000 random ones of size 4-8) over a catalogue of 25 link kinds (honest key A/B, honest certificate C / D via intermediate, tampered, unsigned, unauthorized key, key of an earlier / a later step, copy under another name, copy with forged key-id entry without / with the honest certificate, relabelled copy (forged id with the honest signature value and certificate), junk signatures before/after, expired / foreign-root / constraint-failing certificate, certificate repeating one of two required organizations, tampered copy filed under nine characters of the honest functionary's key id, garbage, truncated JSON, link of another step renamed) x 2 wrappers; the earlier step t also admits certificate functionary C (its verdict must not leak into s); every population of >=2 files is verified 8 times (map order), half of the verifications with the intermediate of a foreign chain passed as caller-supplied intermediate, half with a (non-matching) parameter dictionary, half through InTotoVerifyWithDirectory; the same populations against layouts that name no CA at all (no certificate counts); links that never count report other artifacts than the honest ones; VerifyLinkSignatureThesholds is also called directly and its map inspected; a sequence of two layouts that define one key id with different key material; finally single-step chains whose step name and link directory name contain characters of file-name patterns ([ ] * ? \\ { }), blanks and non-ASCII letters (12 step names x 7 directory names, with and without the honest link). Oracle: expected number of distinct counting functionaries known by construction. " +
+		Rule: "layout with steps t (earlier), s (under test), u (later); step s with threshold 1..3 and authorization by {2 listed keys, 1 certificate constraint + layout root/intermediate CA, both}; link-file populations for s = all multisets of size<=2 (quick) / <=3 (thorough, + 2000 random ones of size 4-8) over a catalogue of 26 link kinds (honest key A/B, honest certificate C / D via intermediate, tampered, unsigned, unauthorized key, key of an earlier / a later step, copy under another name, copy with forged key-id entry without / with the honest certificate, relabelled copy (forged id with the honest signature value and certificate), junk signatures before/after, expired / foreign-root / constraint-failing certificate, certificate repeating one of two required organizations, tampered copy filed under nine characters of the honest functionary's key id, copy under the upper-case spelling of the honest functionary's key id, garbage, truncated JSON, link of another step renamed) x 2 wrappers; the earlier step t also admits certificate functionary C (its verdict must not leak into s); every population of >=2 files is verified 8 times (map order), half of the verifications with the intermediate of a foreign chain passed as caller-supplied intermediate, half with a (non-matching) parameter dictionary, half through InTotoVerifyWithDirectory; the same populations against layouts that name no CA at all (no certificate counts, although the verifying host's own trust store - SSL_CERT_FILE - trusts the functionaries' CA); links that never count report other artifacts than the honest ones; VerifyLinkSignatureThesholds is also called directly and its map inspected; a sequence of two layouts that define one key id with different key material; finally single-step chains whose step name and link directory name contain characters of file-name patterns ([ ] * ? \\ { }), blanks and non-ASCII letters (12 step names x 7 directory names, with and without the honest link). Oracle: expected number of distinct counting functionaries known by construction. " +
 			"non-trivial = at least one file for the step; distinct = (kind multiset, threshold, authorization, wrapper)",
 		Assumptions: []string{"a junk signature entry that carries the honest signer's own key id before the honest entry is not judged", "a link that an authorized functionary signed for ANOTHER step, renamed to this step's file name, is not judged (observed: it is counted; the statement only speaks about who signed)", "all links of a case report identical artifacts (agreement is C05's business)"},
 		Workers:     func(string) int { return 16 },
